@@ -65,6 +65,42 @@ def run_chunk(vh, infile, ids, mode, stall=45, first=180):
     return results, crashes
 
 
+def run_history(vh, name, stall=60, first=180):
+    """Run one whole history (scenario name or random:<seed>) in a worker; returns None if the node
+    served every block, else (block, what)."""
+    p = subprocess.Popen([vh, "c18", "-history", name], stdout=subprocess.PIPE, stderr=subprocess.DEVNULL)
+    q = queue.Queue()
+
+    def pump(pipe=p.stdout, q=q):
+        for raw in iter(pipe.readline, b""):
+            q.put(raw.decode("utf-8", "replace").rstrip("\n"))
+        q.put(None)
+    threading.Thread(target=pump, daemon=True).start()
+    block, done, hung, seen = 0, False, False, False
+    while True:
+        try:
+            line = q.get(timeout=stall if seen else first)
+        except queue.Empty:
+            hung = True
+            p.kill()
+            break
+        if line is None:
+            break
+        seen = True
+        m = re.match(r"HBLOCK (\d+)", line)
+        if m:
+            block = int(m.group(1))
+        if line.startswith("HDONE"):
+            done = True
+        if line.startswith("HSTOPPED"):
+            p.wait()
+            return (block, "application-closed")
+    rc = p.wait()
+    if done and rc == 0:
+        return None
+    return (block, "no-answer" if hung else "process-exit-%s" % rc)
+
+
 def run_all(vh, infile, ids, mode="both", chunk=40, workers=14):
     chunks = [ids[i:i + chunk] for i in range(0, len(ids), chunk)]
     results, crashes = {}, []
